@@ -43,6 +43,7 @@ HISTORY_ROOTS = {
 
 # rules of another property that decide a clause this property depends on (the function lives in the other property's files, the behaviour is part of both)
 BORROWED = {
+    'C01': [('c03', ('MID-DEF', 'ZEROX-DEF', 'INDEX-DTYPE'), 'each row\'s midpoints must lie between the extrema they separate: they are the arrays find_zerox returns, fallbacks included')],
     'C06': [('c13', ('RELABEL-ONLY-LIST',), 'with a per-epoch option list the epoch tables carry the labels of detect_bursts_cycles applied per epoch: its result must be what is stored')],
     'C12': [('c13', ('FLAT-ONCE', 'PARTITION'), 'axis 0 / 1: every slice goes through compute_features_2d(axis=None), whose flattening and epoching (epoch_df) C13 decides')],
     'C13': [('c08', ('SCHEMA',), 'per-epoch re-labelling runs the detectors, whose run filter C08 decides'),
@@ -52,7 +53,7 @@ BORROWED = {
             ('c16', ('EDGE-DEF', 'EDGES-DEF'), 'the functional edge recomputation the object is measured against is the documented one: the object hands it tables of any '
                                                'origin (loaded, windowed), so it must recompute the edge cycles of whatever table it is given')],
     'C16': [('c06', ('LABEL-DEF',), 'the edited table is re-labelled by detect_bursts_cycles')],
-    'C17': [('c03', ('MID-DEF', 'ZEROX-DEF'), 'the midpoints the phase function indexes with are the arrays find_zerox returns')],
+    'C17': [('c03', ('MID-DEF', 'ZEROX-DEF', 'INDEX-DTYPE'), 'the midpoints the phase function indexes with are the arrays find_zerox returns')],
     'C19': [('c01', ('PAIRING',), 'a documented option can only be rejected if it reaches its validator unchanged: compute_cyclepoints forwards find_extrema\'s options as given')],
 }
 FRONT_END_PROPS = FRONT_END_PROPS + ('C19',)
